@@ -59,6 +59,14 @@ def build_elem(e, lit_as='str'):
         return M.M(**{tname(e[1]): build_elem(e[2], lit_as)})
     if k == 'ref':
         return M.MTAG(tname(e[1]))
+    if k in ('and2', 'or2'):
+        cls = M.MAND if k == 'and2' else M.MOR
+        t1, e1, t2, e2 = e[1:]
+        if t1 is not None and t2 is None:
+            raise ValueError('an anonymous member cannot follow a keyword member')
+        anon = [build_elem(x, lit_as) for t, x in ((t1, e1), (t2, e2)) if t is None]
+        tagged = {tname(t): build_elem(x, lit_as) for t, x in ((t1, e1), (t2, e2)) if t is not None}
+        return cls(*anon, **tagged)
     raise ValueError(e)
 
 
@@ -194,7 +202,9 @@ def q(mn, mx, g=True, tag=None, st=()):
     return {'mn': mn, 'mx': mx, 'g': g, 'tag': tag, 'st': [list(x) for x in st]}
 
 
-ATOMS = [['lit', 0], ['lit', 1], ['any'], ['cap', 0, ['any']], ['cap', 0, ['lit', 0]], ['ref', 0]]
+ATOMS = [['lit', 0], ['lit', 1], ['any'], ['cap', 0, ['any']], ['cap', 0, ['lit', 0]], ['ref', 0],
+         ['and2', None, ['any'], 1, ['cap', 0, ['any']]],            # MAND(..., t1=M(t0=...)): a capture inside a keyword member
+         ['or2', 1, ['cap', 0, ['lit', 0]], 2, ['lit', 1]]]           # MOR(t1=M(t0='a'), t2='b')
 QUANTS = [(0, None), (1, None), (0, 1), (1, 2), (0, 2), (2, 2), (2, 3), (2, None)]
 QUANTS_CORE = [(0, None), (1, None), (0, 1), (1, 2)]
 SUB_BODIES = [
@@ -255,8 +265,12 @@ def rand_elem(rng, depth=0):
         return ['any']
     if c < 0.7 and depth < 2:
         return ['cap', rng.randrange(3), rand_elem(rng, depth + 1)]
-    if c < 0.85:
+    if c < 0.8:
         return ['ref', rng.randrange(3)]
+    if c < 0.93 and depth < 2:
+        t1 = rng.choice([None, None, rng.randrange(3)])
+        t2 = rng.choice([t for t in range(3) if t != t1]) if (t1 is not None or rng.random() < 0.6) else None
+        return [rng.choice(['and2', 'or2']), t1, rand_elem(rng, depth + 1), t2, rand_elem(rng, depth + 1)]
     return ['lit', rng.randrange(2)]
 
 
@@ -356,6 +370,21 @@ def to_regex(ps):
             if caps[t] != hidden[:len(caps[t])]:
                 raise NoOracle('reference across a tagged quantifier')
             return f'(?P=e{t})'
+        if k in ('and2', 'or2'):
+            t1, e1, t2, e2 = e[1:]
+            parts = []
+            for t, x in ((t1, e1), (t2, e2)):
+                if t is not None and t in caps:
+                    raise NoOracle('tag captured twice')
+                r = elem(x, hidden)
+                if t is not None:
+                    caps[t] = hidden
+                    order.append(('cap', t, hidden))
+                    r = f'(?P<e{t}>{r})'
+                parts.append(r)
+            if k == 'and2':
+                return f'(?={parts[0]}){parts[1]}'       # both members look at the same element
+            return f'(?>{parts[0]}|{parts[1]})'         # MOR commits to the first member that matches (documented): atomic
         raise ValueError(e)
 
     def quant(qq):
@@ -384,7 +413,7 @@ def to_regex(ps):
             caps[qq['tag']] = hidden + ('span',)
         if k == 'qs':
             body = elem(it[2], h2)
-            if it[2][0] in ('cap', 'ref'):
+            if it[2][0] in ('cap', 'ref', 'and2', 'or2'):
                 body = f'(?:{body})'
         else:
             body = '(?:' + ''.join(item(x, h2) for x in it[2]) + ')'
